@@ -83,6 +83,9 @@ type Options struct {
 func zigzag(v int64) uint64 { return uint64(v<<1) ^ uint64(v>>63) }
 
 func uleb(b []byte, v uint64, pad bool) []byte {
+	if v >= 1<<56 {
+		pad = false // already 9 or 10 bytes: a longer varint is not a valid 64-bit varint
+	}
 	for v >= 0x80 {
 		b = append(b, byte(v)|0x80)
 		v >>= 7
@@ -187,7 +190,7 @@ func encCompact(b []byte, v Val, o Options) []byte {
 			return append(b, 0)
 		}
 		b = uleb(b, uint64(len(v.Pairs)), o.PadVarints)
-		b = append(b, elemCode(v.Key, o)<<4|elemCode(v.Value, o))
+		b = append(b, cmpCode[v.Key]<<4|cmpCode[v.Value]) // the 1-or-2 latitude for BOOL is only stated for list and set headers
 		for _, kv := range v.Pairs {
 			b = encCompact(b, kv[0], o)
 			b = encCompact(b, kv[1], o)
